@@ -38,8 +38,8 @@ PROPS = {
         not_covered='dictionary operations (std HashMap + closures in lib.rs); Dict-inside-key arm',
     ),
     'C11': dict(
-        units=['rangeu'],
-        not_covered='default Stream::{len,force,pythonic_slice,reversed}, lazy adaptors, combinatorial streams, infinite streams',
+        units=['rangeu', 'streamdef'],
+        not_covered='Stream::force (std collect into Result, assumed), Stream::pythonic_slice (Vec::drain), lazy adaptors, combinatorial streams, infinite streams',
     ),
     'C16': dict(
         units=['display', 'radix'],
